@@ -98,12 +98,15 @@ fn wire_checks() -> (u64, Vec<String>) {
     let handler = |req: servlin::Request| -> Response {
         let code: u16 = req.url().path().trim_start_matches('/').parse().unwrap_or(200);
         if code == 999 { panic!("handler panic") }
+        // a handler that stamps its own Connection header on everything it returns
+        if req.url().query() == Some("k") { return Response::text(code, "x").with_header("Connection", "keep-alive".try_into().unwrap()); }
         Response::text(code, "x")
     };
     let (addr, _stopped) = match exec.block_on(servlin::HttpServerBuilder::new().listen_addr(servlin::socket_addr_127_0_0_1_any_port()).max_conns(10).small_body_len(100).permit(permit.new_sub()).spawn(handler)) {
         Ok(x) => x, Err(e) => return (1, vec![format!("wire server expected=starts actual={e:?}")]) };
     let mut reqs: Vec<(String, Vec<u8>)> = Vec::new();
     for code in [200u16, 204, 301, 404, 499, 500, 501, 503, 505, 550, 599, 600, 999] { reqs.push((format!("handler{code}"), format!("GET /{code} HTTP/1.1\r\n\r\n").into_bytes())); }
+    for code in [200u16, 500, 503, 599] { reqs.push((format!("handler{code}-own-connection-header"), format!("GET /{code}?k HTTP/1.1\r\n\r\n").into_bytes())); }
     reqs.push(("http10".into(), b"GET / HTTP/1.0\r\n\r\n".to_vec()));
     reqs.push(("http2".into(), b"GET / HTTP/2.0\r\n\r\n".to_vec()));
     reqs.push(("badline".into(), b"GET\r\n\r\n".to_vec()));
